@@ -53,6 +53,9 @@ var KeyAlphabet = []string{"a", "b", "a/b", "a_b", "a b", "x:y", "k=v", "[z]", "
 
 var numKeyValues = []string{"1", "2", "10"}
 
+// identityref key values: identities of two modules (JSON_IETF spells them module:name)
+var idKeyValues = []string{"red", "blue", "green"}
+
 // ValueDomain returns the small value domain of a node (denotations).
 func ValueDomain(n *Node) []string {
 	if n.Kind == KContainer {
@@ -147,7 +150,9 @@ func (u *Universe) Resolve(sel LeafSel, palette []string) (IPath, string) {
 				}
 				ki++
 				kn := n.Child(k)
-				if kn != nil && kn.Type != "string" {
+				if kn != nil && kn.Type == "identityref" {
+					pe.Keys[k] = idKeyValues[idx%len(idKeyValues)]
+				} else if kn != nil && kn.Type != "string" {
 					pe.Keys[k] = numKeyValues[idx%len(numKeyValues)]
 				} else {
 					pe.Keys[k] = palette[idx%len(palette)]
@@ -192,12 +197,13 @@ var UniPlain = &Universe{Name: "plain", Tmpls: tmpls(
 	"plain/l1/descr", "plain/l1/mtu", "plain/l2a/v", // weight
 	"plain/dc/dflt", "plain/dc/other", "plain/dc/in/z",
 	"plain/l1/cfg/descr",
+	"plain/il/v", "plain/il/w",
 )}
 
 // UniPlainNA adds the lists whose keys are declared in non-alphabetical order. (Templates are only ever
 // appended, stored cases address them by index.)
-var UniPlainNA = &Universe{Name: "plain+nonalpha", Tmpls: append(append(append([]Tmpl{}, UniPlain.Tmpls[:len(UniPlain.Tmpls)-4]...), tmpls(
-	"plain/l2z/v", "plain/l3/v", "plain/l2z/v", "plain/l3/v")...), UniPlain.Tmpls[len(UniPlain.Tmpls)-4:]...)}
+var UniPlainNA = &Universe{Name: "plain+nonalpha", Tmpls: append(append(append([]Tmpl{}, UniPlain.Tmpls[:len(UniPlain.Tmpls)-6]...), tmpls(
+	"plain/l2z/v", "plain/l3/v", "plain/l2z/v", "plain/l3/v")...), UniPlain.Tmpls[len(UniPlain.Tmpls)-6:]...)}
 
 // UniChoice: the choice subtree plus two plain leaves.
 var UniChoice = &Universe{Name: "choice", Tmpls: tmpls(
@@ -301,7 +307,7 @@ func GenIntentOp(t *rapid.T, o HistGenOpts, owner int) IntentOp {
 		op.Leaves = GenLeafSels(t, o.Universe, 1, 6, "leaf")
 		forms := o.Forms
 		if len(forms) == 0 {
-			forms = []string{"typed", "string", "json"}
+			forms = []string{"typed", "string", "json", "json_ietf"}
 		}
 		op.Form = rapid.SampledFrom(forms).Draw(t, "form")
 	}
